@@ -283,10 +283,33 @@ def snap_config(c):
 
 
 def snap_results(r):
-    d = dict(atom_order=S.neutral(r.atom_order), total_duration=r.total_duration, tags={})
+    """every field, private stores included: _results / _times per uuid (uuids
+    in storage order, several uuids may carry the same tag), _tagmap"""
+    uuids = list(r._results)
+    d = dict(
+        atom_order=S.neutral(r.atom_order),
+        total_duration=r.total_duration,
+        uuids=[str(u) for u in uuids],
+        time_uuids=[str(u) for u in r._times],
+        tagmap={tag: str(u) for tag, u in r._tagmap.items()},
+        stores=[dict(times=S.neutral(r._times.get(u)), values=S.neutral(r._results[u])) for u in uuids],
+        tags={},
+    )
     for tag, u in r._tagmap.items():
-        d["tags"][tag] = dict(times=S.neutral(r._times[u]), values=S.neutral(r._results[u]))
+        d["tags"][tag] = dict(times=S.neutral(r._times.get(u)), values=S.neutral(r._results.get(u)))
     return d
+
+
+def results_model_inst(sn):
+    """the instance shape of Model/RtBackend.v"""
+    return {
+        "__class__": "Results",
+        "atom_order": sn["atom_order"],
+        "total_duration": sn["total_duration"],
+        "tagmap": dict(sn["tagmap"]),
+        "results": {u: st["values"] for u, st in zip(sn["uuids"], sn["stores"])},
+        "times": {u: st["times"] for u, st in zip(sn["uuids"], sn["stores"]) if st["times"] is not None},
+    }
 
 
 def snap_simconfig(sc):
@@ -744,26 +767,46 @@ def run_results(case):
         return run, viols
     dinst = snap_results(r2)
     run["dec"] = dinst
-    run["uuids"] = {tag: str(u) for tag, u in res._tagmap.items()}
     for f in ("atom_order", "total_duration"):
         if not veq(inst[f], dinst[f]) or type(getattr(res, f)) is not type(getattr(r2, f)):
             bad(f"results:field-differs:{f}", f"{getattr(res, f)!r} -> {getattr(r2, f)!r}")
-    if list(inst["tags"]) != list(dinst["tags"]):
-        bad("results:tags-differ", f"{list(inst['tags'])} -> {list(dinst['tags'])}")
-    for tag in inst["tags"]:
-        if tag not in dinst["tags"]:
+    # private stores, field-exact
+    if inst["tagmap"] != dinst["tagmap"]:
+        bad("results:tagmap-differs", f"_tagmap {inst['tagmap']} -> {dinst['tagmap']}"[:400])
+    if inst["uuids"] != dinst["uuids"]:
+        lost = [u for u in inst["uuids"] if u not in dinst["uuids"]]
+        shared = len(set(inst["tagmap"].values())) < len(inst["uuids"])
+        bad(
+            "results:stored-uuids-differ" + (":colliding-tags" if shared else ""),
+            f"_results keys {inst['uuids']} -> {dinst['uuids']} (lost {lost})"[:400],
+        )
+    if inst["time_uuids"] != dinst["time_uuids"]:
+        bad("results:time-uuids-differ", f"_times keys {inst['time_uuids']} -> {dinst['time_uuids']}"[:400])
+    for u, a in zip(inst["uuids"], inst["stores"]):
+        if u not in dinst["uuids"]:
             continue
-        a, b = inst["tags"][tag], dinst["tags"][tag]
+        b = dinst["stores"][dinst["uuids"].index(u)]
         if not veq(a["times"], b["times"]):
-            bad("results:times-differ", f"{tag}: {a['times']} -> {b['times']}")
+            bad("results:times-differ", f"{u}: {a['times']} -> {b['times']}")
         if not veq(a["values"], b["values"]):
             cxs = has_true_complex(a["values"]) and only_unrestored_complex(a["values"], b["values"])
             bad(
                 "results:value-differs" + (":complex-not-restored" if cxs else ""),
-                f"{tag}: {a['values']!r} -> {b['values']!r}"[:400],
+                f"{u}: {a['values']!r} -> {b['values']!r}"[:400],
             )
-        if res._tagmap[tag] != r2._tagmap[tag]:
-            bad("results:uuid-differs", f"{tag}")
+    # public getters
+    if list(inst["tags"]) != list(dinst["tags"]):
+        bad("results:tags-differ", f"{list(inst['tags'])} -> {list(dinst['tags'])}")
+    try:
+        g1, g2 = S.neutral(res.get_tagged_results()), S.neutral(r2.get_tagged_results())
+        t1 = {t: res.get_result_times(t) for t in res.get_result_tags()}
+        t2 = {t: r2.get_result_times(t) for t in r2.get_result_tags()}
+        if not veq(t1, t2):
+            bad("results:getter-times-differ", f"{t1} -> {t2}"[:300])
+        if not veq(g1, g2) and not only_unrestored_complex(g1, g2):
+            bad("results:getter-values-differ", f"{g1!r} -> {g2!r}"[:300])
+    except Exception as e:  # noqa: BLE001
+        bad(f"results:getter-raises:{type(e).__name__}", f"{e}"[:200])
     return run, viols
 
 
